@@ -207,7 +207,10 @@ def sources_of_failure(cv, f):
     dups = [b for b in cv.dup_events() if b <= opi]
     kind = f["kind"]
     if kind == "id-unstable":
-        src.add(F_DUP if opi in dups else None)
+        # the insert that creates the second id, or a later insert of a key that already has two ids
+        ops = c["ops"]
+        same = [b for b in dups if ops[b]["mst"] == ops[opi]["mst"] and (ops[b].get("tags") or []) == (ops[opi].get("tags") or [])]
+        src.add(F_DUP if same else None)
         return src
     if kind in ("listing-series", "listing-keys", "listing-values"):
         src.add(F_DUP if dups else None)
@@ -236,8 +239,8 @@ def parse_mism(out):
     m = re.search(r"M\s*=\s*(.*?)\s*:\s*list", out, re.S)
     if not m:
         return None
-    return [(int(a), int(b), int(c)) for a, b, c in
-            re.findall(r"\((\d+)(?:%\w+)?,\s*(\d+)(?:%\w+)?,\s*(\d+)(?:%\w+)?\)", m.group(1))]
+    txt = re.sub(r"\s+", "", m.group(1))      # the printer breaks lines anywhere, also right after "("
+    return [(int(a), int(b), int(c)) for a, b, c in re.findall(r"\((\d+)(?:%\w+)?,(\d+)(?:%\w+)?,(\d+)(?:%\w+)?\)", txt)]
 
 
 def main(ck):
@@ -299,6 +302,8 @@ def main(ck):
                 out.setdefault(chunks[j][a], []).append((b, code))
         return out
 
+    if os.environ.get("C10_DEBUG"):
+        open(os.path.join(ck.verif, "work", "c10dev", "rendered_c10.txt"), "w").write("\n".join(rendered))
     evaluated = False
     mm = {}
     if ok and cases:
